@@ -118,7 +118,7 @@ def flowRecsTree (m : FlowRecs) : Json :=
   obj (entry "ExtRouter" extRouterTree m.rtr ++ entry "ExtSwitch" extSwitchTree m.sw ++ entry "RawHeader" pktTree m.raw)
 
 def flowSampleTree (s : FlowSample) : Json :=
-  obj [("SequenceNo", num s.seqNo), ("SourceID", num s.sourceID),
+  obj [("SequenceNo", num s.seqNo), ("SourceID", num s.sourceID), ("SourceIDIdx", num s.sourceIDIdx),
     ("SamplingRate", num s.samplingRate), ("SamplePool", num s.samplePool), ("Drops", num s.drops),
     ("Input", num s.input), ("Output", num s.output), ("RecordsNo", num s.recordsNo),
     ("Records", flowRecsTree s.recs)]
